@@ -765,3 +765,13 @@ func entryDecisions(r *Report, ro *Roles, ok map[string]bool, prop string) {
 		}
 	}
 }
+
+// levelList: the registered levels in ascending order of code.
+func (w *entryWorld) levelList() []levelInfo {
+	var out []levelInfo
+	for _, li := range w.lg {
+		out = append(out, li)
+	}
+	sort.Slice(out, func(i, j int) bool { return out[i].code < out[j].code })
+	return out
+}
